@@ -5,6 +5,7 @@ import (
 	"compress/gzip"
 	"encoding/binary"
 	"fmt"
+	"hash/crc32"
 	"math"
 	"time"
 
@@ -630,7 +631,8 @@ func encodePage(ch ChunkSpec, p PageSpec, dictIdx map[string]int) ([]byte, int, 
 	}
 	ph := NewSt().SetI32(1, PageData).SetI32(2, int64(len(payload))).SetI32(3, int64(len(body))).SetSt(5, dp)
 	if p.Extras {
-		ph.SetI32(4, 0x1234567) // crc
+		// crc: "the 32-bit CRC checksum of the page data as stored" (after compression), signed i32 on the wire - a reader may verify it
+		ph.SetI32(4, int64(int32(crc32.ChecksumIEEE(body))))
 		ph.F[99] = TVal{T: TBinary, B: []byte("unknown field")}
 	}
 	// a page of another type whose header ALSO carries a (leftover) data_page_header struct: the type decides
